@@ -85,6 +85,7 @@ func allPropsUnsorted() []*propInfo {
 				{ID: "C04.4", Doc: "[atoms] postpone-only modify-deadline", Run: ruleC04_4},
 				{ID: "C04.5", Doc: "[dep] nack reschedules by the backoff", Run: ruleC04_5},
 				{ID: "C04.6", Doc: "[dep] reported attempt number", Run: ruleC04_6},
+				{ID: "C04.7", Doc: "[dep][tab] shape of the backoff: depends on attempt and policy, factor 1.1, defaults 10 s / 10 min, capped, jitter < 1 s", Run: ruleC04_7},
 			},
 		},
 		{
@@ -118,6 +119,7 @@ func allPropsUnsorted() []*propInfo {
 				{ID: "C06.3", Doc: "[dom] dead-lettered xor delivered/rescheduled", Run: ruleC06_3},
 				{ID: "C06.4", Doc: "[dom][who] forward and retire in one step", Run: ruleC06_4},
 				{ID: "C06.5", Doc: "[atoms] nack candidates are outstanding", Run: ruleC06_5},
+				{ID: "C09.1", Doc: "[K5] (shared) a storage error inside forwarding/retiring aborts the transaction: the two stay one step", Run: ruleC09_1},
 			},
 		},
 		{
@@ -259,6 +261,7 @@ func allPropsUnsorted() []*propInfo {
 				{ID: "C11.4", Doc: "[dom] wake after release; settled ids leave the window (C11.7)", Run: ruleC11_4_7},
 				{ID: "C11.5", Doc: "[K6 interval] effective flow control >= 1", Run: ruleC11_5},
 				{ID: "C11.6", Doc: "[dom] byte budget", Run: ruleC11_6},
+				{ID: "C11.8", Doc: "[dep] the client's limits reach the streamer un-swapped and unaltered", Run: ruleC11_8},
 			},
 		},
 		{
@@ -276,6 +279,7 @@ func allPropsUnsorted() []*propInfo {
 				{ID: "C18.4", Doc: "[dom] subset match", Run: ruleC18_4},
 				{ID: "C18.5", Doc: "[dom] prune / listing thresholds", Run: ruleC18_5},
 				{ID: "C18.6", Doc: "[dom] pooled parameter map is emptied", Run: ruleC18_6},
+				{ID: "C18.7", Doc: "[dom][K5] interceptor discipline: one check per call, verdict returned, operation only after a nil verdict, no use of the pooled map after Put", Run: ruleC18_7},
 			},
 		},
 		{
@@ -310,6 +314,8 @@ func allPropsUnsorted() []*propInfo {
 				{ID: "C07.4", Doc: "[tab] operator tables agree", Run: ruleC07_4},
 				{ID: "C07.5", Doc: "purity of evaluation", Run: ruleC07_5},
 				{ID: "C07.6", Doc: "leaf and combinator shapes (idiom-bound)", Run: ruleC07_6},
+				{ID: "C01.3", Doc: "[atoms] (shared) the publish fan-out walks every live subscription of the topic, whole rows: no subscription is skipped before its filter is evaluated", Run: ruleC01_3},
+				{ID: "C06.4", Doc: "[dom] (shared) dead-letter forwarding hands the original message, loaded whole, to the targets' filters", Run: ruleC06_4},
 			},
 		},
 		{
